@@ -1442,6 +1442,65 @@ def idx1(units, R, floor=0):
     R.floor('IDX1', 'library conversions of reference tokens', n, floor)
 
 
+# ---- FND1: the search for a node gives up only because of the tree ----------------------------------------------------------------
+
+def fnd1(units, R, fn_name='cJSONUtils_FindPointerFromObjectTo'):
+    """cJSONUtils_FindPointerFromObjectTo (and the recursive helper it may be a wrapper of): "for every node inside a tree, the pointer
+    constructed from the root resolves back to it" - for every tree.  A branch whose condition is computed from neither the tree nor
+    the target, nor is the NULL test of a fresh allocation, must not have an edge on which the search can only answer NULL while
+    its other edge can still find the node: a depth budget makes nodes of deep trees unfindable, whatever the bound."""
+    u = units['cJSON_Utils.c']
+    ent = u.functions.get(fn_name)
+    if ent is None or ent.body is None:
+        raise AnalysisBroken('FND1: %s not found' % fn_name)
+    fns = [ent]
+    for c in ent.calls():
+        h = u.functions.get(callee_name(c))
+        if h is not None and h.static and h.body is not None and h not in fns and \
+                sum(1 for p_ in h.params if 'cJSON' in u.ty(p_['ty'])['s']) >= 2 and any(callee_name(x) == h.name for x in h.calls()):
+            fns.append(h)
+    n = 0
+    for h in fns:
+        cfg = h.cfg()
+        tainted = {p_['d'] for p_ in h.params if 'cJSON' in u.ty(p_['ty'])['s']}
+        changed = True
+        while changed:
+            changed = False
+            pairs = [(strip_casts(a['l']), a['r']) for a in assignments(h) if strip_casts(a['l']).get('k') == 'ref']
+            pairs += [({'d': d_['d']}, d_['init']) for d_ in h.locals() if 'init' in d_]
+            for l, r in pairs:
+                if l['d'] in tainted:
+                    continue
+                if any(x.get('k') == 'ref' and x.get('d') in tainted for x in walk(r)):
+                    tainted.add(l['d'])
+                    changed = True
+        fresh = _fresh_pointer_locals(u, h)
+        found_rets = {r_.id for r_ in cfg.returns() if r_.expr is not None and not is_null_const(r_.expr) and const_val(r_.expr) != 0}
+        can_find = set()
+        for r_ in found_rets:
+            can_find |= cfg.reachable(r_, forward=False) | {r_}
+        for m in cfg.nodes:
+            if m.kind != 'branch' or m.expr is None:
+                continue
+            e = strip_casts(m.expr)
+            refs = [x for x in walk(e) if x.get('k') == 'ref' and x.get('dk') in ('local', 'param')]
+            if not refs or any(x['d'] in tainted or x['d'] in fresh for x in refs):
+                continue
+            n += 1
+            gives_up, goes_on = [], []
+            for (y, l) in cfg.succ[m.id]:
+                if l is not None and l[0] in ('T', 'F') and _range_decides(u, e) == (l[0] != 'T'):
+                    continue
+                (goes_on if y in can_find else gives_up).append((y, l))
+            bad = bool(gives_up) and bool(goes_on)
+            R.ob('FND1', h, e, 'the condition %s, which does not come from the tree or the target, does not decide whether the node is found' %
+                 expr_str(e)[:50], not bad, 'both edges can still find it' if not bad else
+                 'on its %s edge %s can only answer NULL: a node that is in the tree is reported as not found' % (
+                     'true' if gives_up[0][1] and gives_up[0][1][0] == 'T' else 'false', h.name), key='foreign:%s' % expr_str(e)[:40])
+    R.ob('FND1', ent, None, 'branches of the pointer search that do not depend on the tree', True, '%d found in %d function(s)' % (n, len(fns)),
+         key='census')
+
+
 # ---- DIG1: digit-counting loops agree with their radix ----------------------------------------------------------------------
 
 def dig1(units, R, unit_names=('cJSON.c', 'cJSON_Utils.c')):
